@@ -1,5 +1,6 @@
 # -*- coding: utf-8 -*-
 import numpy as np
+import datetime
 from pyg_base._types import is_nan, is_iterable, is_float
 from pyg_base._loop import len0
 from pyg_base._as_primitive import as_primitive
@@ -46,8 +47,8 @@ def cmp(x,y):
     if x is y:
         return 0
     x,y = as_primitive([x,y])
-    tx = str(float if isinstance(x, int) and not isinstance(x, bool) else type(x)) # ints rank with floats, but are not converted: python compares int and float exactly, 
-    ty = str(float if isinstance(y, int) and not isinstance(y, bool) else type(y)) # whereas float(2**53+1) == float(2**53)
+    tx = str(float if isinstance(x, int) and not isinstance(x, bool) else datetime.datetime if isinstance(x, datetime.datetime) else type(x)) # ints rank with floats, but are not converted: python compares int and float exactly, 
+    ty = str(float if isinstance(y, int) and not isinstance(y, bool) else datetime.datetime if isinstance(y, datetime.datetime) else type(y)) # whereas float(2**53+1) == float(2**53); a pd.Timestamp is a datetime
     if tx<ty:
         return -1
     elif ty<tx:
